@@ -54,8 +54,19 @@ def dominating_tests(func, target):
     """List of (test, polarity) of the If statements enclosing `target` inside func."""
     out = []
 
+    def exits(body):
+        return bool(body) and isinstance(body[-1], (ast.Return, ast.Raise, ast.Continue, ast.Break))
+
     def rec(stmts, acc):
+        acc = list(acc)
         for s in stmts:
+            if not (s is target or any(x is target for x in ast.walk(s))):
+                # guard clause: `if X: return ...` before the target means not X from here on (and vice versa)
+                if isinstance(s, ast.If) and exits(s.body) and not exits(s.orelse):
+                    acc.append((s.test, False))
+                elif isinstance(s, ast.If) and s.orelse and exits(s.orelse) and not exits(s.body):
+                    acc.append((s.test, True))
+                continue
             if s is target or any(x is target for x in ast.walk(s)):
                 if isinstance(s, ast.If):
                     if any(x is target for b in s.body for x in ast.walk(b)):
@@ -292,13 +303,22 @@ def check_hub(run, repo):
                 run.violation('C16-U', m.relpath, fi.qualname, 'device size', 'the device access size is `%s`, not the '
                               'requested size' % u(sz))
             g = dominating_tests(fi.node, subs[0])
-            if not any(p is True and u(t) in ('%s is not None' % mcname, mcname) for t, p in g):
+            found = lambda t, p: (p is True and u(t) in ('%s is not None' % mcname, mcname)) or \
+                                 (p is False and u(t) in ('%s is None' % mcname, 'not %s' % mcname))
+            if not any(found(t, p) for t, p in g):
                 ok = False
                 run.violation('C16-U', m.relpath, fi.qualname, 'unmapped test', 'the device access is not guarded by the '
                               '"controller found" test (unmapped addresses must read 0 / ignore writes)')
         if not is_write:
-            last = fi.node.body[-1]
-            if not (isinstance(last, ast.Return) and last.value is not None and u(last.value) == '0'):
+            zero = [r for r in ast.walk(fi.node) if isinstance(r, ast.Return) and r.value is not None and u(r.value) == '0']
+            good = False
+            for r in zero:
+                gz = dominating_tests(fi.node, r)
+                # `return 0` exactly on the controller-not-found side
+                if mcname is not None and any((p is False and u(t) in ('%s is not None' % mcname, mcname)) or
+                                              (p is True and u(t) in ('%s is None' % mcname, 'not %s' % mcname)) for t, p in gz):
+                    good = True
+            if not good or len(zero) != 1:
                 ok = False
                 run.violation('C16-U', m.relpath, fi.qualname, 'unmapped read', 'an unmapped address must read as 0')
             conv = [c for c in ast.walk(fi.node) if isinstance(c, ast.Call) and u(c.func) == 'to_int']
